@@ -381,11 +381,19 @@ func (i *interpreter) index(idx value, n int) int64 {
 // makeSlice implements ssa.MakeSlice, including symbolic sizes.
 func (i *interpreter) makeSlice(instr *ssa.MakeSlice, ln, cp value) []value {
 	tElt := instr.Type().Underlying().(*types.Slice).Elem()
-	n := i.symSize(ln, tElt, "len")
+	n := i.symSize(ln, tElt, "len", true)
 	c := n
 	if cp != nil {
-		if _, isSym := cp.(sym); isSym || asInt64(cp) != n {
-			c = i.symSize(cp, tElt, "cap")
+		if _, isSym := cp.(sym); isSym {
+			// symbolic capacity: all checks (negative, < len, allocation budget) are made on
+			// the term; the backing array is then materialised with cap = len, which is
+			// unobservable unless the program reslices beyond len or reads cap().
+			c = i.symSize(cp, tElt, "cap", false)
+			if c < n {
+				c = n
+			}
+		} else if asInt64(cp) != n {
+			c = i.symSize(cp, tElt, "cap", true)
 		}
 	}
 	if c < n {
@@ -398,7 +406,7 @@ func (i *interpreter) makeSlice(instr *ssa.MakeSlice, ln, cp value) []value {
 	return slice[:n]
 }
 
-func (i *interpreter) symSize(v value, elem types.Type, what string) int64 {
+func (i *interpreter) symSize(v value, elem types.Type, what string, materialise bool) int64 {
 	sx, ok := v.(sym)
 	if !ok {
 		n := asInt64(v)
@@ -429,6 +437,10 @@ func (i *interpreter) symSize(v value, elem types.Type, what string) int64 {
 		}
 	} else if s.branch(s.mk("bvsgt", 0, t, s.c64(1<<40))) {
 		panic(runtimeErr("makeslice: " + what + " out of range"))
+	}
+	if !materialise {
+		i.s.cuts = append(i.s.cuts, "make with symbolic capacity materialised with cap = len")
+		return 0
 	}
 	if s.branch(s.mk("bvsgt", 0, t, s.c64(int(i.cfg.AllocCap)))) {
 		panic(pathCut{fmt.Sprintf("symbolic make size above exploration cap %d", i.cfg.AllocCap)})
